@@ -146,7 +146,10 @@ func checkC09(w *World, r *Report) {
 	r.Rule("R09.3", "getArgByType gives every RFC 6020 statement the argument class of the ABNF", 60)
 	r.guard("R09.3", func() { c09ArgByType(w, r) })
 
-	r.Rule("R09.4", "argument parsers use no stdlib recogniser whose language strictly contains the ABNF production (ParseBool, base-0 integers, Atoi on signed text, unicode.IsLetter/IsDigit)", 1)
+	r.Rule("R09.11", "argument validation is stateless: in every *Arg.Parse method that validates at all, no success return is reachable without passing a validation call — the verdict never comes from state an earlier call left in the (interned, shared) argument object", 10)
+	r.guard("R09.11", func() { c09StatelessParse(w, r) })
+
+	r.Rule("R09.4", "argument parsers use no stdlib recogniser whose language strictly contains the ABNF production (ParseBool, base-0 integers, Atoi on signed text, unicode.IsLetter/IsDigit, Unicode-whitespace splitters such as strings.Fields/TrimSpace)", 1)
 	r.guard("R09.4", func() { c09ArgLanguage(w, r) })
 
 	r.Rule("R09.5", "checkModule: the four case groups are the RFC's header/linkage/meta/revision sets, default is body, each arm rejects when a later section was already seen, ranks strictly increase", 5)
@@ -343,6 +346,10 @@ func c09ArgLanguage(w *World, r *Report) {
 				}
 			case "strconv.Atoi":
 				why = "strconv.Atoi also accepts a leading '+' or '-' where the ABNF requires DIGITs"
+			case "strings.Fields", "strings.TrimSpace", "unicode.IsSpace", "strings.FieldsFunc":
+				if f.FullName() != "strings.FieldsFunc" {
+					why = f.FullName() + " uses Unicode White_Space (NBSP, form feed, U+2009, U+3000 …); the ABNF separators are SP, HTAB, CR and LF only, so text the grammar rejects as one malformed token is split/trimmed into valid ones"
+				}
 			case "unicode.IsLetter", "unicode.IsDigit", "unicode.IsNumber":
 				why = f.FullName() + " on a byte widened to a rune accepts non-ASCII letters/digits; the ABNF ALPHA/DIGIT are ASCII"
 			}
@@ -881,4 +888,116 @@ func asExpr(n ast.Node) ast.Expr {
 		return e
 	}
 	return nil
+}
+
+// c09StatelessParse (R09.11): an argument parser's verdict comes from
+// validating the text, not from what an earlier call left in the object
+// (arguments are interned and shared). In every Parse method that validates
+// at all (contains a call), no success return is reachable from the entry
+// without passing at least one call.
+func c09StatelessParse(w *World, r *Report) {
+	sp := w.SSAPkg("parse")
+	n := 0
+	// does v derive from the receiver's text field `arg` (or from any call result)?
+	var dependsOnText func(v ssa.Value, d int) bool
+	dependsOnText = func(v ssa.Value, d int) bool {
+		if d > 8 || v == nil {
+			return false
+		}
+		switch x := v.(type) {
+		case *ssa.FieldAddr:
+			st, ok := x.X.Type().(*types.Pointer)
+			if ok {
+				if s2, ok := st.Elem().Underlying().(*types.Struct); ok && s2.Field(x.Field).Name() == "arg" {
+					return true
+				}
+			}
+			return dependsOnText(x.X, d+1)
+		case *ssa.Field:
+			if s2, ok := x.X.Type().Underlying().(*types.Struct); ok && s2.Field(x.Field).Name() == "arg" {
+				return true
+			}
+			return dependsOnText(x.X, d+1)
+		case *ssa.Call:
+			return true
+		case *ssa.Parameter, *ssa.Const, *ssa.Alloc, *ssa.Global:
+			return false
+		}
+		if in, ok := v.(ssa.Instruction); ok {
+			for _, op := range in.Operands(nil) {
+				if *op != nil && dependsOnText(*op, d+1) {
+					return true
+				}
+			}
+		}
+		return false
+	}
+	for _, f := range allFuncs(sp) {
+		if f.Name() != "Parse" || f.Signature.Recv() == nil || f.Parent() != nil {
+			continue
+		}
+		if f.Signature.Results().Len() != 1 || f.Signature.Results().At(0).Type().String() != "error" {
+			continue
+		}
+		isCall := func(in ssa.Instruction) bool {
+			c, ok := in.(ssa.CallInstruction)
+			if !ok {
+				return false
+			}
+			if _, isB := c.Common().Value.(*ssa.Builtin); isB {
+				return false
+			}
+			return true
+		}
+		has := false
+		for _, b := range f.Blocks {
+			for _, in := range b.Instrs {
+				if isCall(in) {
+					has = true
+				}
+			}
+		}
+		if !has {
+			continue
+		}
+		n++
+		// blocks reachable from entry without executing a call
+		bad := false
+		var pos token.Pos
+		seen := map[*ssa.BasicBlock]bool{}
+		work := []*ssa.BasicBlock{f.Blocks[0]}
+		for len(work) > 0 {
+			b := work[len(work)-1]
+			work = work[:len(work)-1]
+			if seen[b] {
+				continue
+			}
+			seen[b] = true
+			called := false
+			for _, in := range b.Instrs {
+				if isCall(in) {
+					called = true
+					break
+				}
+				if ret, ok := in.(*ssa.Return); ok && len(ret.Results) == 1 {
+					if c, ok := ret.Results[0].(*ssa.Const); ok && c.IsNil() {
+						bad = true
+						pos = ret.Pos()
+					}
+				}
+			}
+			if !called {
+				// a branch on the argument text itself is a validation step as well
+				if iff, ok := b.Instrs[len(b.Instrs)-1].(*ssa.If); ok && dependsOnText(iff.Cond, 0) {
+					continue
+				}
+				work = append(work, b.Succs...)
+			}
+		}
+		recv := strings.TrimPrefix(types.TypeString(f.Signature.Recv().Type(), func(*types.Package) string { return "" }), "*")
+		r.Check(!bad, "R09.11", recv+".Parse validates before it accepts", pos, "every success return follows a validation call", "there is a path on which "+recv+".Parse returns nil without having validated anything (e.g. because a field left by an earlier call is set): interned arguments are shared, so a text rejected once is accepted the next time")
+	}
+	if n < 10 {
+		panic(undecided{"fewer validating Parse methods than expected"})
+	}
 }
